@@ -309,7 +309,12 @@ def thread_shard(job) -> dict:
         solo = [bodies[n]() for n in names]
         n0 = TH.count_points(bodies[names[0]], root)
         n1 = TH.count_points(bodies[names[1]], root)
-        for sw in TH.schedules_two(n0, n1, bound, stride):
+        if len(names) == 3:
+            n2 = TH.count_points(bodies[names[2]], root)
+            scheds = TH.schedules_three([n0, n1, n2], stride)
+        else:
+            scheds = TH.schedules_two(n0, n1, bound, stride)
+        for sw in scheds:
             acc.evals += 1
             s = thread_run(names, sw)
             if s.applied:
@@ -479,6 +484,9 @@ def run(ctx) -> None:
         jobs += [("t", (tpairs[i::32], 1, 1)) for i in range(32)]
         core = [(a, b) for a in tb[:5] for b in tb[:5]]
         jobs += [("t", ([p], 2, 3)) for p in core]
+        # three threads, one preemption anywhere (every third point)
+        tri = [t for t in itertools.permutations([n for n in tb if n.startswith("ser")], 3)]
+        jobs += [("t", ([t], 1, 3)) for t in tri]
     seeds = ["0", "1", "2", "3", "4", "42", str(2**32 - 1), "random", "random"]
     fresh = fresh_digests("0")
     by_seed = {}
@@ -515,7 +523,8 @@ def run(ctx) -> None:
             "generator steps) of every pair (thorough: also triple) of 14 workloads incl. two "
             "streams sharing one SerializerOptions; (b) every ordered pair of 8 thread workloads "
             f"under every schedule with <= {bound} preemption(s) at line granularity inside "
-            "pyjelly (2-preemption schedules with stride 3 on the 5 serializer workloads), failing "
+            "pyjelly (thorough: 2-preemption schedules with stride 3 on the 5 serializer workloads and "
+            "three-thread schedules with one preemption), failing "
             f"schedules replayed twice; (c) every history of <= {depth} prior actions (abandon, "
             "fail, full run, partial parse, bad parse) before the probes; (d) fresh processes under "
             "PYTHONHASHSEED values; states = executions; oracle: identical to solo fresh run"
